@@ -149,8 +149,9 @@ theorem Good.seq {e : Ep} {r1 r2 : R} {b : Bool} (h1 : Good e r1) (h2 : Good r1.
   unfold clearPostHvr; split <;> rfl
 @[simp] theorem clearPostHvr_keys (e : Ep) : (clearPostHvr e).ctx.keys = e.ctx.keys := by
   unfold clearPostHvr; split <;> rfl
-@[simp] theorem bufferFrag_keys (c : Ctx) (m : HsMsg) : (bufferFrag c m).keys = c.keys := by
-  unfold bufferFrag; dsimp only; split <;> rfl
+@[simp] theorem resetFrag_keys (c : Ctx) (m : HsMsg) : (resetFrag c m).keys = c.keys := by
+  unfold resetFrag; split <;> rfl
+@[simp] theorem appendFrag_keys (c : Ctx) (m : HsMsg) : (appendFrag c m).keys = c.keys := rfl
 @[simp] theorem noteMsg_keys (c : Ctx) (t : Nat) (raw : Bytes) : (noteMsg c t raw).keys = c.keys := rfl
 @[simp] theorem takeBuffer_keys (c : Ctx) : (takeBuffer c).keys = c.keys := rfl
 @[simp] theorem resync_isClient (e : Ep) (m : HsMsg) : (resync e m).isClient = e.isClient := rfl
@@ -177,6 +178,7 @@ theorem acceptMsg_good (C : Crypto) (L : Loc) (e : Ep) (m : HsMsg) : Good e (acc
   dsimp only
   repeat' split
   · simp [Good, ok]
+  · simp [Good, ok]
   · exact Good.of_pre (by simp) (by simp) (handleMsg_good ..)
   · exact Good.of_pre (by simp) (by simp) (handleMsg_good ..)
 
@@ -194,6 +196,7 @@ theorem procMsg_good (C : Crypto) (L : Loc) (e : Ep) (a : Bool) (m : HsMsg) : Go
     | exact handleMsg_good ..
     | exact gate_good ..
     | exact Good.of_pre (by simp) (by simp) (gate_good ..)
+    | simp [Good, ok, sends]
 
 theorem procPayload_good (C : Crypto) (L : Loc) (a : Bool) : ∀ (fuel : Nat) (e : Ep) (bs : Bytes),
     Good e (procPayload C L a fuel e bs) := by
@@ -268,7 +271,9 @@ theorem procMsg_quiet (C : Crypto) (L : Loc) (e : Ep) (m : HsMsg) (hk : e.ctx.ke
         unfold handleMsg
         simp only [Bool.and_eq_true, decide_eq_true_eq] at h
         simp [h.1, h']
-      · exact quiet_ok _
+      · split
+        · rename_i h; simp at h
+        · exact quiet_ok _
   · split
     · split
       · exact hg
